@@ -4,6 +4,21 @@ import json, os
 
 # id -> (technique, level text, design ref)   -- only properties whose rules are built and armed
 CLAIMED = {
+ "C01": ("finite-table extraction of dataReader.Read by abstract interpretation of its SSA, exhaustive product comparison with the RFC 5321 reference transducer, value-flow rules for source/hand-off",
+         "The reader touches the input byte only via comparisons with constants and a copy, and its only memory is a small-integer field, so the extracted (state x byte-class) table is the behaviour; equality with the reference transducer is decided for all octet streams, segmentations and read sizes. Source of the reader and hand-off to the backend are decided by value flow. bufio/net delivery is trusted.",
+         "DESIGN.md §3 C01"),
+ "C02": ("automaton table (shared with C01) + must-pass-through / never-before path rules on SSA with callee summaries",
+         "End-of-data detection decided by the table for all streams; resynchronisation decided on every path: drain after each callback, limit lifted before the drain, goroutine joined after its drain, no line read during data, one reader per DATA.",
+         "DESIGN.md §3 C02"),
+ "C05": ("value flow of the chunk framing + path counting of consume events + edge-feasibility guards",
+         "Structural necessary conditions of BDAT framing on every path: chunk = LimitReader(c.text.R, parsed size), raw payload path, every sized path consumes the chunk (also refusals), one goroutine per message, accounting. The read-ahead/line-limit clause is not decided.",
+         "DESIGN.md §3 C05"),
+ "C06": ("guards with exact thresholds by edge-feasibility under both polarities + must-summaries + value flow in Read",
+         "Limit armed at construction, lifted only after the callback; budget cut/decrement/exhaustion in Read; SIZE and BDAT totals refused exactly when strictly greater than the limit with 552 and no callback. The DATA boundary at exactly N octets is NOT decided.",
+         "DESIGN.md §3 C06"),
+ "C07": ("automaton table for error/EOF results + guard facts with phi refinement for the clean pipe close + must-summaries for aborts",
+         "io.EOF only in the end state; read errors become non-EOF errors; clean pipe close only on LAST after a complete chunk (error nil and count == declared size); reset/Close abort an open pipe; handleConn closes on every exit.",
+         "DESIGN.md §3 C07"),
  "C03": ("typestate guards by edge-feasibility on SSA + must/may event summaries + path rules",
          "Structural necessary conditions of the transaction typestate decided for every call site and path: callbacks unreachable under each out-of-order state, state advanced only on success edges, reset()/Close on every transaction end, no advancing event after a refusal. Not a proof of the behaviour over all histories.",
          "DESIGN.md §3 C03"),
